@@ -331,6 +331,9 @@ def _exec_post(args):
                 ants.append(rng.choice([M.And(a1, b2), M.And(a1, M.Not(b1)), M.Or(M.And(a1, M.Not(b1)), M.And(a2, M.Not(b2))), M.And(a1, a2)]))
             cons = [b for b, _ in rng.sample(base, min(len(base), 4))] + [_lit(usesig, rng) for _ in range(4)]
             cons += [M.Or(_lit(usesig, rng), _lit(usesig, rng)) for _ in range(2)] + [M.And(_lit(usesig, rng), _lit(usesig, rng)) for _ in range(2)]
+            # antecedents as consequents: (a2 | a) holds for every a2 when a is infeasible, (a2 | a2) holds classically -- OR then
+            # concludes (a2 | a ; a2), whose antecedent is feasible although one disjunct is not
+            cons += rng.sample([a for a in ants if a != M.TOP], min(2, len(ants) - 1))
             pool = [(c, a) for a in ants for c in cons]
             pans = ask(pool)
             true_by_ant = {}
